@@ -2,8 +2,9 @@
    Only statements here; proofs live in Proofs/Pipeline.v and Proofs/PipelineSpec.v.  Gen_C01 is
    regenerated from pyxel/pipelines/{pipeline,processor,model_group,model_function}.py on every run. *)
 From Coq Require Import List String ZArith Bool Arith Sorted Permutation.
-From PyxelV Require Import Model.Pipeline Model.PipelineHist.
+From PyxelV Require Import Model.Pipeline Model.PipelineHist Model.PipelineExec.
 From PyxelV Require Import Proofs.Pipeline Proofs.PipelineSpec Proofs.PipelineEq Proofs.PipelineJudge Proofs.PipelineHist.
+From PyxelV Require Import Proofs.PipelineExec.
 From PyxelGen Require Import Gen_C01.
 Import ListNotations.
 Open Scope list_scope.
@@ -35,12 +36,15 @@ Theorem C01_src_wiring :
 Proof. apply wiring_okb_sound. vm_compute. reflexivity. Qed.
 Print Assumptions C01_src_wiring.
 
-(* run_pipeline iterates model_group_names = MODEL_GROUPS (as does __iter__); a group yields its
-   enabled models only; run loops over the group itself; a model gets (detector, **arguments) *)
+(* run_pipeline iterates model_group_names = MODEL_GROUPS (as does __iter__) and skips a group of the
+   order only when it is absent (no branch on the detector type, the step, the debug flag ...); a
+   group yields its enabled models only; run loops over the group itself (not over a remembered
+   list); a model gets (detector, **arguments) *)
 Theorem C01_src_iteration :
   src_iterated_by = [("Processor.run_pipeline", "model_group_names");
                      ("DetectionPipeline.model_group_names", "MODEL_GROUPS");
                      ("DetectionPipeline.__iter__", "MODEL_GROUPS")]%string /\
+  src_run_pipeline_skips = ["absent"]%string /\
   src_group_iter_guard = "model.enabled"%string /\
   src_group_run_iterates = "self"%string /\
   src_model_call = ["detector"; "**self.arguments"]%string.
@@ -163,6 +167,18 @@ Theorem C01_debug_irrelevant :
     snd (run_readouts true physical p n) = captures_of (trace true p n).
 Proof. apply run_debug_irrelevant. Qed.
 Print Assumptions C01_debug_irrelevant.
+
+(* THE EXECUTION THEOREM.  Running the pipeline object p itself for n readout steps the way the code
+   does — every call receives the argument objects stored in its ModelFunction at that moment, and a
+   model that changes them in place changes what is stored — makes exactly the calls of `trace`, and
+   leaves the object as `age n p` (which is p itself when no model grows its arguments) *)
+Theorem C01_execution_is_trace :
+  forall p n, exec_readouts physical p n = (trace false p n, age n p).
+Proof.
+  intros p n. rewrite (exec_readouts_closed physical p n) by (vm_compute; reflexivity).
+  unfold trace. rewrite run_readouts_fst. reflexivity.
+Qed.
+Print Assumptions C01_execution_is_trace.
 
 (* ---------- configuration histories: what a run is judged against ---------- *)
 
@@ -365,3 +381,50 @@ Proof. reflexivity. Qed.
 Example ex_python_hyp :
   forall g, kw_of_doc ex_doc g <> None -> In g [DataProcessing; ChargeTransfer; Phasing; SignalTransfer].
 Proof. intros g H. destruct g; simpl; try tauto; exfalso; apply H; reflexivity. Qed.
+
+(* a history: run, switch p0 (position 0 of phasing) on and d0 off, run again; then a copy is changed
+   and both objects run: every run is judged against the configuration of its object at that time *)
+Definition ex_hist : list op :=
+  [ORun 0 (Exposure false) 1;
+   OSetEnabled 0 Phasing 0 true; OSetEnabled 0 DataProcessing 0 false;
+   ORun 0 (Exposure true) 1;
+   OCopy 0 CDeep; OSetEnabled 1 Phasing 1 false;
+   ORun 0 (Exposure false) 1; ORun 1 (Exposure false) 1].
+
+Example ex_hist_runs :
+  map (fun r => (r_obj r, map (fun c => (c_group c, c_pos c)) (trace false (r_cfg r) (r_steps r))))
+      (hist_runs true [ex_p] ex_hist) =
+  [(0, [(Phasing, 1); (Phasing, 2); (DataProcessing, 0)]);
+   (0, [(Phasing, 0); (Phasing, 1); (Phasing, 2)]);
+   (0, [(Phasing, 0); (Phasing, 1); (Phasing, 2)]);
+   (1, [(Phasing, 0); (Phasing, 2)])].
+Proof. vm_compute. reflexivity. Qed.
+
+(* a growing model: what it receives at steps 0, 1, 2 of one run, and the object after the run *)
+Definition ex_grow : pipeline :=
+  mk_pipeline (fun g => match g with
+                        | ChargeGeneration =>
+                            Some [{| name := "frames"; enabled := true; grows := true;
+                                     args := [("q", VList [VStr "a"]); ("opt", VDict [VList [VStr "lst"; VList []]])] |}]
+                        | _ => None end)%string.
+
+Example ex_grow_trace :
+  map c_args (trace false ex_grow 3) =
+  [[("q", VList [VStr "a"]); ("opt", VDict [VList [VStr "lst"; VList []]])];
+   [("q", VList [VStr "a"; VInt 1]); ("opt", VDict [VList [VStr "lst"; VList [VInt 0]]])];
+   [("q", VList [VStr "a"; VInt 1; VInt 2]); ("opt", VDict [VList [VStr "lst"; VList [VInt 0; VInt 1]]])]]%string /\
+  age 3 ex_grow <> ex_grow /\ freeze (age 3 ex_grow) <> freeze ex_grow /\
+  snd (exec_readouts physical ex_grow 3) = age 3 ex_grow.
+Proof. split; [vm_compute; reflexivity|]. split; [discriminate|]. split; [discriminate|vm_compute; reflexivity]. Qed.
+
+(* an override addressing inside a dict inside a list inside a dict *)
+Example ex_set_in :
+  set_in [PKey "lst"; PIdx 1; PKey "n"] (VInt 7)
+         (VDict [VList [VStr "level"; VInt 10]; VList [VStr "lst"; VList [VInt 1; VDict [VList [VStr "n"; VInt 2]]]]]) =
+  VDict [VList [VStr "level"; VInt 10]; VList [VStr "lst"; VList [VInt 1; VDict [VList [VStr "n"; VInt 7]]]]]%string.
+Proof. vm_compute. reflexivity. Qed.
+
+Example ex_toggle_hyps :
+  exists ms m0, nth_error (exec_ops true [ex_p] [ORun 0 (Exposure false) 1]) 0 = Some ex_p /\
+                get ex_p Phasing = Some ms /\ nth_error ms 0 = Some m0 /\ enabled m0 = false.
+Proof. eexists. eexists. repeat split; reflexivity. Qed.
